@@ -11,7 +11,7 @@ from .. import observe, spec as specmod
 from ..kernel import call, exc_site
 from .pool import PoolScenario
 
-QKINDS = [("lambda", 4), ("named", 2), ("def", 2), ("str", 3), ("cached", 2), ("cached_named", 1), ("selfc", 2)]
+QKINDS = [("lambda", 4), ("named", 2), ("def", 2), ("str", 3), ("cached", 2), ("cached_named", 1), ("selfc", 3), ("selfg", 2)]
 
 
 class C11(PoolScenario):
@@ -63,6 +63,10 @@ class C11(PoolScenario):
                           box=s.pick(self.boxes))
             elif what in ("add_other", "iadd_other"):
                 st["other"] = s.pick(ab.handles(k=ab.objs[h]["k"]))
+                if what == "iadd_other":
+                    # bins adopted from an immutable (reloaded) operand cannot be filled afterwards
+                    for x in (h, t):
+                        ab.objs[x]["mut"] = ab.objs[x]["mut"] and ab.objs[st["other"]]["mut"]
             elif what == "mul":
                 st["f"] = s.pick([0.5, 2.0, 3])
             return [st]
@@ -100,6 +104,11 @@ class C11(PoolScenario):
         if not e.ok:
             raise self.violation(exc_site(e.exc)[0], "pickle", "exception:%s" % type(e.exc).__name__, "clone == original raised %s" % e.describe(), si)
         self.compare(w, obj, c.value, si, "pickle")
+        # (a bare Count gains fill.numpy by unpickling: offering more is fine, offering less is not)
+        if (hasattr(obj.fill, "numpy") and not hasattr(c.value.fill, "numpy")) or (hasattr(obj.fill, "sparksql") and not hasattr(c.value.fill, "sparksql")):
+            raise self.violation(obj.name, "pickle", "replica-diverged:fill-methods",
+                                 "the pickle clone does not offer the same fill methods as the original (fill.numpy: original %s, clone %s)" % (
+                                     hasattr(obj.fill, "numpy"), hasattr(c.value.fill, "numpy")), si)
         if e.value is not True:
             raise self.violation(obj.name, "pickle", "eq-false-on-equal:pickle",
                                  "pickle clone does not compare equal to the original although their serialised content is identical", si,
@@ -175,6 +184,10 @@ class C11(PoolScenario):
                 # the failed operation may have changed both sides half-way: stop using the pair
                 ma["version"] = ma.get("version", 0) + 1
                 return "pair", set()
+            if what == "iadd_other":
+                om = w.meta.get(st["other"], {}).get("mut", True)
+                ma["mut"] = ma.get("mut", True) and om
+                mb["mut"] = mb.get("mut", True) and om
             if what in ("fill", "fillnumpy", "iadd_other"):
                 ma["version"] = ma.get("version", 0) + 1
                 mb["version"] = ma["version"]
@@ -209,7 +222,10 @@ class C11(PoolScenario):
             else:
                 tgt = st.get("obj", st.get("l"))
                 if op in ("fill", "fillnumpy"):
-                    self.lib(o, op, si)
+                    if w.meta[tgt].get("mut", True):
+                        self.lib(o, op, si)
+                    elif not o.ok:
+                        w.bump("probe_fill_of_immutable_refused")
                     w.meta[tgt]["fills"] = w.meta[tgt].get("fills", 0) + 1
                     w.meta[tgt]["version"] = w.meta[tgt].get("version", 0) + 1
                 elif op == "add" and o.ok:
